@@ -40,6 +40,7 @@ type exprGen struct {
 	loopVars []string
 	redundantParens int // percent
 	noUndefined bool
+	rawBytes int // percent of string chunks that are byte sequences which are not valid UTF-8
 }
 
 func (g *exprGen) pick(ss ...string) string { return ss[g.r.Intn(len(ss))] }
@@ -80,11 +81,19 @@ func (g *exprGen) floatLit() string {
 
 var strChunks = []string{"a", "b", "xyz", " ", "<", ">", "&", "\"", "\\'", "\\\\", "\\n", "\\t", "\\u00e9", "é", "日本", "😀", "</script>", "{", "}", "0", "12", "-", "&amp;", "%", "+", "=", "#"}
 
+// invalidUtf8Chunks: bytes that are not valid UTF-8 (lone lead/continuation bytes, truncated and overlong
+// sequences, a surrogate, a value above U+10FFFF)
+var invalidUtf8Chunks = []string{"\xff", "\xc3", "\x80", "\xe2\x82", "\xf0\x9f\x98", "\xc0\xaf", "\xed\xa0\x80", "\xf4\x90\x80\x80", "\xfe"}
+
 func (g *exprGen) strLit() string {
 	n := g.r.Intn(4)
 	var b strings.Builder
 	b.WriteByte('\'')
 	for i := 0; i < n; i++ {
+		if g.rawBytes > 0 && g.r.Intn(100) < g.rawBytes {
+			b.WriteString(invalidUtf8Chunks[g.r.Intn(len(invalidUtf8Chunks))])
+			continue
+		}
 		b.WriteString(strChunks[g.r.Intn(len(strChunks))])
 	}
 	b.WriteByte('\'')
